@@ -307,3 +307,26 @@ func VH_C01_encode() {
 		vndAssert(len(b) <= 256, "RTU ADU is at most 256 bytes")
 	}
 }
+
+// VH_C01_encode_twice: encoding is a function of the request alone - a request encoded after another one (same
+// function, its own arbitrary arguments) still serializes to the specification's ADU, and encoding the first one
+// again gives the same bytes as before (no state carried from one request to the next).
+func VH_C01_encode_twice() {
+	sel := vndParam("sel")
+	tcp := vndParam("tcp") == 1
+	first := vhBuild(sel, tcp, vndParam("p"))
+	if first.err != nil {
+		return
+	}
+	b1 := append([]byte{}, first.req.Bytes()...)
+	second := vhBuild(sel, tcp, vndParam("p"))
+	if second.err != nil {
+		return
+	}
+	vndCover("second-constructed")
+	b2 := second.req.Bytes()
+	vndAssert(len(b2) == len(second.spec) && vhEqualBytes(b2, second.spec), "a request encoded after another one still serializes to the specification's ADU")
+	b1again := first.req.Bytes()
+	vndAssert(len(b1again) == len(b1) && vhEqualBytes(b1again, b1), "encoding the same request again gives the same bytes")
+	vndAssert(len(b1) == len(first.spec) && vhEqualBytes(b1, first.spec), "the first request serializes to the specification's ADU")
+}
